@@ -15,6 +15,7 @@ import (
 	"pgregory.net/rapid"
 
 	"zrntverif/refspec"
+	"zrntverif/refssz"
 	"zrntverif/report"
 	"zrntverif/sim"
 	"zrntverif/zb"
@@ -208,6 +209,31 @@ func run(r *report.Run, cc *sim.ChainCase) *report.Failure {
 					return f
 				}
 				r.Class("metamorphic-split-checked")
+			}
+			// reference self-checks (they validate the oracle, not the library): the split relation and
+			// survival of a refssz round trip; a failure here is a harness defect -> inconclusive, never a VIOLATION
+			if slot-pre.Slot >= 2 && i%4 == 1 {
+				mid := pre.Slot + 1 + (slot-pre.Slot-1)/2
+				a, b := pre.Copy(), pre.Copy()
+				ea := l.Sp.ProcessSlots(a, slot)
+				eb := l.Sp.ProcessSlots(b, mid)
+				if eb == nil {
+					eb = l.Sp.ProcessSlots(b, slot)
+				}
+				if (ea == nil) != (eb == nil) || (ea == nil && l.Sp.StateRoot(a) != l.Sp.StateRoot(b)) {
+					r.Inconclusive(fmt.Sprintf("reference self-check failed: process_slots(%d->%d) != process_slots(%d->%d->%d)", pre.Slot, slot, pre.Slot, mid, slot))
+					return nil
+				}
+				ty := l.Sp.T(refspec.StateTypeName(a.Fork))
+				if ea == nil {
+					bs := l.Sp.StateBytes(a)
+					v, err := refssz.Deserialize(ty, bs)
+					if err != nil || refssz.HashTreeRoot(ty, v) != l.Sp.StateRoot(a) {
+						r.Inconclusive(fmt.Sprintf("reference self-check failed: state does not survive a refssz round trip: %v", err))
+						return nil
+					}
+				}
+				r.Class("reference-self-checks")
 			}
 			res := l.StepSkip(ctx, slot)
 			if res.RefErr != nil {
